@@ -307,7 +307,7 @@ class Runtime:
         while f is not None:
             d += 1
             f = f.f_back
-        self.depths.setdefault(c.id, []).append((tid, d))
+        self.depths.setdefault(c.id, []).append((tid, d, getattr(self, 'cur_op', -1)))
         return tid, ph
 
     def exc_s(self, e):
@@ -535,6 +535,7 @@ def run_impl(scn: Scn):
             rt.lines.append(f"R {i} skipped")
             return
         cur_tid[0] = "-"
+        rt.cur_op = i
         try:
             if op[0] in ("construct", "reconstruct"):
                 r = op_construct()
@@ -557,6 +558,7 @@ def run_impl(scn: Scn):
             rt.lines.append(f"R {i} skipped")
             return
         cur_tid[0] = "-"
+        rt.cur_op = i
         try:
             if op[0] in ("construct", "reconstruct"):
                 r = op_construct()
